@@ -120,14 +120,6 @@ def intervals(prog, pa, base, fixed=None):
     out, probs = [], []
     ex = _resolver(pa, fixed or {})
     sub = {}                      # address of a sub-slice object -> (lo, hi) relative to the output slice
-    for w in pa.writes:
-        if w[0] == "write-elem" and isinstance(w[2], tuple) and len(w[2]) == 1 and (w[1] == base or "obj:" + str(w[1]) == base):
-            m = re.match(r"\[(\d+)\]$", str(w[2][0]))
-            if m:
-                i = int(m.group(1))
-                out.append((i, i + 1, "byte %d" % i, None, ex(w[3]) if len(w) > 3 else None))
-            else:
-                probs.append("element write at a non-constant index %s" % (w[2],))
     for e in pa.calls:
         muts = e[5] if len(e) > 5 else ()
         if not muts:
@@ -180,6 +172,21 @@ def intervals(prog, pa, base, fixed=None):
             out.append((lo, ("op:Add", lo, ok_v), "nested " + nm, e[4], ("nested", args[0] if args else None)))
             continue
         probs.append("unclassified callee %s receives the output slice mutably" % nm)
+    # element writes, into the output slice itself or into one of its sub-slices (offset by where that sub-slice starts)
+    for w in pa.writes:
+        if not (w[0] == "write-elem" and isinstance(w[2], tuple) and len(w[2]) == 1):
+            continue
+        tgt = w[1] if (w[1] == base or w[1] in sub) else ("obj:" + str(w[1]) if ("obj:" + str(w[1]) == base or "obj:" + str(w[1]) in sub) else None)
+        if tgt is None:
+            continue
+        off = 0 if tgt == base else sub[tgt][0]
+        m = re.match(r"\[(\d+)\]$", str(w[2][0]))
+        if m:
+            i = int(m.group(1))
+            lo = ("op:Add", off, i) if off != 0 else i
+            out.append((lo, ("op:Add", lo, 1) if off != 0 else i + 1, "byte %d" % i, None, ex(w[3]) if len(w) > 3 else None))
+        else:
+            probs.append("element write at a non-constant index %s" % (w[2],))
     return out, probs
 
 
